@@ -14,6 +14,7 @@ mod c15;
 mod c16;
 mod c17;
 mod c18;
+mod c19;
 mod c20;
 mod common;
 mod e1;
@@ -50,6 +51,7 @@ macro_rules! dispatch {
             "C16" => c16::$f($($a),*),
             "C17" => c17::$f($($a),*),
             "C18" => c18::$f($($a),*),
+            "C19" => c19::$f($($a),*),
             "C20" => c20::$f($($a),*),
             _ => { eprintln!("unknown property {}", $id); std::process::exit(2) }
         }
